@@ -493,6 +493,8 @@ class Model:
             if a.param_syms() or b.param_syms():
                 return Opaque('unit equality depends on input units')
             return False
+        if a is None or b is None:
+            return a is b  # a unit is not None (a variable without unit has unit None)
         if isinstance(a, str):
             a = parse_unit(a)
         if isinstance(b, str):
@@ -770,6 +772,12 @@ class Model:
         mod, _, name = path.rpartition('.')
         if mod == 'builtins':
             return self._builtin(interp, name, args, kwargs, node)
+        if path == 'numpy.dtype' and len(args) == 1 and isinstance(args[0], str) and not kwargs:
+            import numpy as _np
+            try:
+                return _np.dtype(args[0])  # a concrete dtype object (itemsize, kind, ... are numpy's own)
+            except TypeError as ex:
+                raise RaiseSignal('TypeError', node, interp.where(node), (str(ex),)) from None
         if path == 'contextlib.suppress':
             from .interp import Suppress
             names = []
